@@ -5,6 +5,7 @@ go 1.26
 require (
 	github.com/Comcast/rulio v0.0.0
 	github.com/anishathalye/porcupine v1.3.0
+	github.com/gorhill/cronexpr v0.0.0-20180427100037-88b0669f7d75
 )
 
 require (
